@@ -67,7 +67,7 @@ CHECKS = {
              "(the initial schedule under 'no node flagged yet'); steal requests name only booked tests; indices stay valid. SYSTEM level (SystemCorollaries*.v, SystemGaps*.v; ALL modes, every schedule with crashes): at most one shutdown per worker in the whole run and it is the LAST command "
              "of the worker's stream (hypothesis 'no undecodable report' for load/scope/each: without it the statement is refuted, recorded finding, Coq witness CtlWitnesses.v); book coupling (what the controller believes outstanding = what the worker owes) for all modes.", design="5/C16", technique=TECH),
  "C17": dict(text=SYS + CTL + "Deaths are injected at every lifecycle point; any controller exception other than the documented 'no active workers' exit, any stuck state and any budget violation is reported with its schedule. "
-             "Proofs: SYSTEM level for --dist load (CrashCoupling.v, CrashTheorems.v), ARBITRARY crashes at any moment, replacements, any budget, every schedule: the book coupling invariant extended to dead and replacement workers; "
+             "Proofs: SYSTEM level for --dist load (CrashCoupling.v, CrashTheorems.v; with arbitrary undecodable reports too: GarbledCoupling.v, GarbledTheorems.v, no hypothesis but >= 1 worker), ARBITRARY crashes at any moment, replacements, any budget, every schedule: the book coupling invariant extended to dead and replacement workers; "
              "the only exception the controller can end with is the documented 'no active workers' one, which needs a worker that collected a different list; with agreeing collections the controller never raises. "
              "The same for worksteal (CrashSteal*.v), the scope family (CrashScope*.v) and each (CrashEach*.v) — without a re-queueing plugin where mark_test_pending is not implemented (scope, each). "
              "For every mode: the restart budget and crash-report theorems (C10, C03) hold for every event sequence incl. events of unknown nodes. Recorded findings (with Coq witnesses where controller-level): internal_error event then exit; written-off worker finishes its queue.", design="5/C17", technique=TECH),
